@@ -82,6 +82,10 @@ class Ctx:
         self.defined_ids = set()
         self._inc = None
         self.sqrt_memo = {}   # (radicand ast id, lazy) -> (y, nan condition, radicand kept alive)
+        self.forced = 0       # length of a prefix imposed from outside (sub-tree split), feasibility-checked when consumed
+        self.model = None     # incremental mode only: a model of the whole current path condition, or None
+        self.decided = {}     # ast id of a condition already decided on this path -> (term kept alive, outcome)
+        self.concretized = {}  # ast id of an integer term already pinned on this path -> (term kept alive, value)
 
     # -- assumptions -----------------------------------------------------
     def assume(self, c, defines=None):
@@ -100,6 +104,7 @@ class Ctx:
             self.defined_ids.add(defines.get_id())
         if self._inc is not None:
             self._inc.add(c)
+        self.model = None
 
     def vars_of(self, t):
         """ids of the uninterpreted constants in term t.
@@ -231,6 +236,9 @@ class Ctx:
             return True
         if z3.is_false(cond):
             return False
+        hit = self.decided.get(cond.get_id())
+        if hit is not None:
+            return hit[1]   # the path condition already fixes it (it only grows along a path)
         if len(self.trace) >= self.max_decisions:
             raise BudgetExceeded("decisions on one path > %d" % self.max_decisions)
         if self.pos < len(self.prefix):
@@ -238,9 +246,35 @@ class Ctx:
             self.pos += 1
             self.trace.append(d)
             self.assume(cond if d else z3.Not(cond))
+            self.decided[cond.get_id()] = (cond, d)
+            if self.forced and self.pos <= self.forced:
+                r, _ = self.solve([], self.feas_timeout, full=True)
+                if r == z3.unsat:
+                    raise PathAbort()
             return d
-        rt = self._check(cond)
-        rf = self._check(z3.Not(cond))
+        mt = mf = None
+        guess = None
+        if self.incremental and self.model is not None:
+            # the kept model satisfies the whole path condition: the side it takes is feasible without a query
+            try:
+                g = self.model.eval(cond, model_completion=True)
+                guess = True if z3.is_true(g) else (False if z3.is_false(g) else None)
+            except z3.Z3Exception:
+                guess = None
+        if guess is True:
+            rt, mt = z3.sat, self.model
+            rf, mf = self.solve([z3.Not(cond)], self.feas_timeout)
+        elif guess is False:
+            rf, mf = z3.sat, self.model
+            rt, mt = self.solve([cond], self.feas_timeout)
+        elif self.incremental:
+            rt, mt = self.solve([cond], self.feas_timeout)
+            rf, mf = self.solve([z3.Not(cond)], self.feas_timeout)
+        else:
+            rt = self._check(cond)
+            rf = self._check(z3.Not(cond))
+        if self.incremental:
+            self.nunknown += (rt == z3.unknown) + (rf == z3.unknown)
         t_ok = rt != z3.unsat  # unknown => take the branch (over-approximation)
         f_ok = rf != z3.unsat
         if t_ok and f_ok:
@@ -257,6 +291,9 @@ class Ctx:
         self.prefix.append(d)
         self.trace.append(d)
         self.assume(cond if d else z3.Not(cond))
+        if self.incremental:
+            self.model = mt if d else mf   # a model of the extended path condition (None if that side was `unknown`)
+        self.decided[cond.get_id()] = (cond, d)
         return d
 
 
